@@ -35,7 +35,14 @@ func (ms MsgServer) checkAdminPermission(ctx context.Context, sender string) err
 	}
 
 	if params.Admin != sender {
-		return errorsmod.Wrapf(sdkerrors.ErrUnauthorized, "the message is allowed to be executed by admin %s", params.Admin)
+		// the same account may be spelled differently (bech32 in upper case): compare the decoded
+		// addresses, as checkBridgeExecutorPermission does
+		ac := ms.authKeeper.AddressCodec()
+		adminAddr, errAdmin := ac.StringToBytes(params.Admin)
+		senderAddr, errSender := ac.StringToBytes(sender)
+		if errAdmin != nil || errSender != nil || !bytes.Equal(adminAddr, senderAddr) {
+			return errorsmod.Wrapf(sdkerrors.ErrUnauthorized, "the message is allowed to be executed by admin %s", params.Admin)
+		}
 	}
 
 	return nil
